@@ -77,14 +77,22 @@ func TestVerifC32(t *testing.T) {
 		vnRunBubble(t, func(t *testing.T) {
 			ca := vnNewCA(cert.Version2, cert.Curve_CURVE25519)
 			nw := vnNewNet(t)
-			a := nw.AddNode(ca.issue([]cert.Version{cert.Version2}, "a", "10.1.0.1/16", "", nil), []*vnCA{ca}, "192.0.2.1:4242",
+			a := nw.AddNode(ca.issue([]cert.Version{cert.Version2}, "a", "10.1.0.1/16,fd00:1::1/64", "", nil), []*vnCA{ca}, "192.0.2.1:4242",
 				m{"handshakes": m{"try_interval": interval.String(), "retries": retries}, "firewall": m{"outbound": outbound}})
-			pid := ca.issue([]cert.Version{cert.Version2}, "p", "10.1.0.9/16", "", []string{"pg"})
+			// the peer is certified for two addresses; half of the cases dial it through the second one
+			pid := ca.issue([]cert.Version{cert.Version2}, "p", "10.1.0.9/16,fd00:1::9/64", "", []string{"pg"})
+			dial := pid.Addr()
+			src := a.Ident.Addr()
+			mkPkt := vnUDP4
+			if cs%2 == 1 {
+				dial, src, mkPkt = pid.Addrs()[1], a.Ident.Addrs()[1], vnUDP6
+				r.Count("cases_dialling_the_peers_second_address", 1)
+			}
 			pp := nw.AddPuppet(pid, []*vnCA{ca}, "192.0.2.9:4242", cert.Version2)
 			var stamps []time.Time
 			a.F.handshakeManager.outside = &c32Conn{Conn: a.F.handshakeManager.outside, stamps: &stamps}
 			a.Start()
-			a.C.InjectLightHouseAddr(pid.Addr(), pp.Addr)
+			a.C.InjectLightHouseAddr(dial, pp.Addr)
 			nw.Settle()
 			defer nw.StopAll()
 			rec := func(extra map[string]any) map[string]any {
@@ -100,7 +108,7 @@ func TestVerifC32(t *testing.T) {
 			var ports []uint16
 			for i := 0; i < queued || i < 1; i++ {
 				dport := uint16(80 + rng.IntN(2))
-				pkt, id := vnUDP4(a.Ident.Addr(), pid.Addr(), uint16(10000+i), dport, rng.IntN(32))
+				pkt, id := mkPkt(src, dial, uint16(10000+i), dport, rng.IntN(32))
 				ids = append(ids, id)
 				ports = append(ports, dport)
 				nw.TunSend(a, pkt)
@@ -113,7 +121,7 @@ func TestVerifC32(t *testing.T) {
 			pendingIdx := func() (uint32, bool) {
 				hsm.RLock()
 				defer hsm.RUnlock()
-				hh, ok := hsm.vpnIps[pid.Addr()]
+				hh, ok := hsm.vpnIps[dial]
 				if !ok {
 					return 0, false
 				}
@@ -124,7 +132,7 @@ func TestVerifC32(t *testing.T) {
 				return
 			}
 			hsm.RLock()
-			stored := len(hsm.vpnIps[pid.Addr()].packetStore)
+			stored := len(hsm.vpnIps[dial].packetStore)
 			hsm.RUnlock()
 			r.Eval(1)
 			wantStored := min(queued, 100)
@@ -147,7 +155,7 @@ func TestVerifC32(t *testing.T) {
 			if lateQueue {
 				latePort = uint16(80 + rng.IntN(2))
 				var latePkt []byte
-				latePkt, lateID = vnUDP4(a.Ident.Addr(), pid.Addr(), 20000, latePort, 8)
+				latePkt, lateID = mkPkt(src, dial, 20000, latePort, 8)
 				fired := false
 				hook := func(id int) {
 					if id != verifHsBeforeComplete || fired {
@@ -157,7 +165,7 @@ func TestVerifC32(t *testing.T) {
 					count := func() int {
 						hsm.RLock()
 						defer hsm.RUnlock()
-						if hh, ok := hsm.vpnIps[pid.Addr()]; ok {
+						if hh, ok := hsm.vpnIps[dial]; ok {
 							return len(hh.packetStore)
 						}
 						return -1
@@ -271,7 +279,7 @@ func TestVerifC32(t *testing.T) {
 					if idxLeft && !removedAt.IsZero() {
 						r.Violation("C32/index-not-released", fmt.Sprintf("case %d: pending index %d still registered after give-up", cs, lastIdx), rec(nil))
 					}
-					if a.F.hostMap.QueryVpnAddr(pid.Addr()) != nil {
+					if a.F.hostMap.QueryVpnAddr(dial) != nil {
 						r.Violation("C32/tunnel-without-answer", "a tunnel exists although nobody answered", rec(nil))
 					}
 				}
